@@ -43,6 +43,8 @@ ASSUMPTIONS = [
 ]
 
 BARE_POS_RE = re.compile(rb"^([^\n]*?:\d+:\d+): (Error|Warning): ", re.M)
+# what the graphical handler actually SHOWED (after warning filtering): severity, file, identifier
+SHOWN_RE = re.compile(r"\x1b\[(?:91mError|33mWarning)\x1b\[0m in \x1b\[96m([^\x1b]*)\x1b\[0m: \x1b\[38;5;208m\[-W([a-z0-9-]+)\]")
 
 
 def _digest(obj):
@@ -223,6 +225,7 @@ def result_key(obs):
         "changed": sorted((p, hashlib.sha256(b).hexdigest() if b is not None else None) for p, b in obs["changed"].items()),
         "diags": obs["diags"],
         "positions": positions,
+        "shown": [(m.group(1), m.group(2)) for m in SHOWN_RE.finditer(obs["stderr"])],
         "stdout_image": hashlib.sha256(image).hexdigest(),
         "acks": obs["acks"],
         "fatals": len(obs["fatals"]),
